@@ -19,6 +19,7 @@ ended by exhaustion/close/del/throw every variable has the binding state (and va
 non-trivial = at the moment of abandonment at least one tracked variable was bound (for exhaust: >= 1 answer).
 """
 import random
+import re
 import sys
 
 import s_common as S
@@ -277,8 +278,10 @@ def run_case(case, fam, seed, count, acc, order, only=None):
 
         def report(mode, k, ok, detail, nontrivial, extra=None):
             acc.evaluation(digest(src, qs, mode, k, extra) if nontrivial else None)
+            acc.observe((qi, mode, k), ok, detail)
             if not ok:
-                acc.fail((order, qi, mode, k), scenario_of(case, fam, seed, count, qi, mode, k, extra), detail)
+                acc.fail((order, qi, mode, k), scenario_of(case, fam, seed, count, qi, mode, k, extra), detail,
+                         cls='%s: %s' % (mode, ' '.join(re.sub(r'\d+', '#', detail).split()[:5])))
 
         def wanted(mode, k):
             return only is None or (only[1] == mode and only[2] == k)
@@ -321,9 +324,13 @@ def run_case(case, fam, seed, count, acc, order, only=None):
                     if total == 0:
                         continue
                     if not same_answers(ctx.base, counted):
-                        report('native', 0, False, 'with the delegating python predicate %s the answers are %s instead of %s'
-                               % (key, show(counted), show(ctx.base)), True, dict(target=key))
+                        detail = ('with the delegating python predicate %s (not raising) the answers are %s instead of %s'
+                                  % (key, show(counted), show(ctx.base)))
+                        report('native', 0, False, detail, True, dict(target=key))
+                        results.append((False, detail))
                         break
+                    if only is not None and only[2] == 0:
+                        results.append((True, 'ok'))
                     for j in points(total, random.Random('c03n/%s/%d' % (case.id, qi)), only=only):
                         if wanted('native', j):
                             ok, detail, nt = ctx.check('native', j, ticker)
@@ -341,9 +348,13 @@ def run_case(case, fam, seed, count, acc, order, only=None):
             if total:
                 extra = dict(boom_clause=list(bv[2]))
                 if not same_answers(ctx.base, bctx.base):
-                    report('boom', 0, False, 'with boom (succeeds once) in clause %s the answers are %s instead of %s'
-                           % (bv[2], show(bctx.base), show(ctx.base)), True, extra)
+                    detail = ('with boom (succeeds once, not raising) in clause %s the answers are %s instead of %s'
+                              % (bv[2], show(bctx.base), show(ctx.base)))
+                    report('boom', 0, False, detail, True, extra)
+                    results.append((False, detail))
                 else:
+                    if only is not None and only[2] == 0:
+                        results.append((True, 'ok'))
                     for j in points(total, random.Random('c03b/%s/%d' % (case.id, qi)), only=only):
                         if wanted('boom', j):
                             ok, detail, nt = bctx.check('boom', j, boom_ticker)
@@ -505,7 +516,8 @@ def worker(args):
                 continue
             acc.evaluation(digest('U', sc, m) if nt else None)
             if not ok:
-                acc.fail((order, 0, m, 0), dict(driver='s_c03', family='U', seed=seed, index=i, mode=m, **sc), detail)
+                acc.fail((order, 0, m, 0), dict(driver='s_c03', family='U', seed=seed, index=i, mode=m, **sc), detail,
+                         cls='U %s: %s' % (m, ' '.join(re.sub(r'\d+', '#', detail).split()[:5])))
         if i < 2:
             acc.sample((order, 0), dict(family='U', **sc))
     return acc.pack()
@@ -524,6 +536,12 @@ def replay(sc):
     if case is None:
         return False, 'case not found'
     extra = {k: sc[k] for k in ('target', 'boom_clause') if k in sc}
+    # the checks of a case share one engine: run the whole case as `run` did and pick the check's outcome
+    acc = Acc()
+    acc.watch_key = (sc['qi'], sc['mode'], sc['k'])
+    run_case(case, sc['family'], sc['seed'], sc['count'], acc, 0)
+    if acc.watch_result is not None:
+        return acc.watch_result
     return run_case(case, sc['family'], sc['seed'], sc['count'], Acc(), 0, only=(sc['qi'], sc['mode'], sc['k'], extra))
 
 
